@@ -68,7 +68,12 @@ def impl(c):
     timed = []
     for tn in time_notes(NoteData(txt), td, UnhittableNotes(c["opt"])):
         timed.append([float(tn.time), G.note_obs(tn.note)])
-    return {"hits": hits, "timed": timed}
+    # the same events under another offset, in the same process: every time moves by exactly the difference
+    from decimal import Decimal
+    td2 = GT.mk_timing_data(dict(c["td"], offset=str(Decimal(c["td"]["offset"]) + Decimal("1.25"))))
+    timed2 = [[float(tn.time), G.note_obs(tn.note)] for tn in time_notes(NoteData(txt), td2, UnhittableNotes(c["opt"]))]
+    shift = len(timed2) == len(timed) and all(n1 == n2 and abs((t2 - t1) + 1.25) < 1e-9 for (t1, n1), (t2, n2) in zip(timed, timed2))
+    return {"hits": hits, "timed": timed, "offset_shift": bool(shift)}
 
 
 def requests(c):
@@ -127,6 +132,8 @@ def oracle(c, o):
     for (t, n), (q, m) in zip(o["timed"], exp):
         if not c11.close(t, q):
             return "note %s timed at %r, exact time is %s" % (n, t, float(q))
+    if o.get("offset_shift") is False:
+        return "the same notes timed under offset + 1.25 (same events, same process) did not all move by -1.25 s"
     return None
 
 
